@@ -258,6 +258,15 @@ func genBuiltinProbe(t *rapid.T) string {
 		toks := genUnits(t, "cap_tokens", []string{"a ", "b ", "sasl ", "=draft ", "a=b ", "= ", "- ", "-a ", "multi-prefix ", "=x=y "}, 1, 4)
 		return ":irc.server CAP " + rapid.SampledFrom([]string{"*", "me"}).Draw(t, "cap_target") + " " + rapid.SampledFrom([]string{"LS", "ACK", "NAK", "LS *", "NEW", "DEL"}).Draw(t, "cap_sub") + " :" + strings.TrimSpace(toks)
 	}
+	if rapid.IntRange(0, 11).Draw(t, "long_ctcp") == 0 {
+		// a CTCP request the client answers by itself (PING echoes its argument, VERSION does not), with an
+		// argument far beyond what fits one reply: a blank-free run of continuation bytes, of multi-byte
+		// characters, of dots, or words
+		unit := rapid.SampledFrom([]string{"\x80", "\xbf", "\u00e9", "\u65e5", ".", "x", "ab ", "\xc3"}).Draw(t, "ctcp_unit")
+		n := rapid.SampledFrom([]int{440, 449, 450, 451, 600, 1400, 3000}).Draw(t, "ctcp_len")
+		verb := rapid.SampledFrom([]string{"PING", "PING", "VERSION", "ping", "TIME", "ACTION"}).Draw(t, "ctcp_verb")
+		return ":x!u@h " + rapid.SampledFrom([]string{"PRIVMSG", "NOTICE"}).Draw(t, "ctcp_carrier") + " me :\x01" + verb + " " + strings.Repeat(unit, n/len(unit)+1) + "\x01"
+	}
 	if rapid.IntRange(0, 4).Draw(t, "membership_shape") == 0 {
 		// well-formed membership events about the wrong / absent / half-known parties
 		nk := func(l string) string { return rapid.SampledFrom([]string{"me", "x", "other", "solo", "nobody", ""}).Draw(t, l) }
